@@ -969,9 +969,10 @@ impl ImplementationRule for JoinRule {
 
         // Hash join and Merge join are available for equi-joins
         if join.is_equi_join() {
-            let keys = join.extract_equi_keys();
+            let left_cols = join.left_schema.num_columns();
+            // `ON b.aid = a.id` names the right input first: orient every pair before splitting it
+            let keys = orient_equi_keys(&join.extract_equi_keys(), left_cols).unwrap_or_default();
             if !keys.is_empty() {
-                let left_cols = join.left_schema.num_columns();
 
                 // Create key expressions for left and right sides
                 // Note: extract_equi_keys returns indices in the combined output schema
@@ -1035,6 +1036,23 @@ impl ImplementationRule for JoinRule {
 
         Ok(impls)
     }
+}
+
+/// Orients each extracted key pair as (column of the left input, column of the right input), both still as
+/// indices of the combined schema. `None` when an equality relates two columns of the same input: that is a
+/// filter, not a join key, and only the nested loop join evaluates it.
+fn orient_equi_keys(keys: &[(usize, usize)], left_cols: usize) -> Option<Vec<(usize, usize)>> {
+    let mut oriented = Vec::with_capacity(keys.len());
+    for &(l, r) in keys {
+        if l < left_cols && r >= left_cols {
+            oriented.push((l, r));
+        } else if r < left_cols && l >= left_cols {
+            oriented.push((r, l));
+        } else {
+            return None;
+        }
+    }
+    Some(oriented)
 }
 
 #[derive(Clone, Copy)]
